@@ -240,6 +240,16 @@ func messageDerived(v ssa.Value, depth int) bool {
 	case *ssa.Parameter:
 		if s, ok := x.Type().Underlying().(*types.Slice); ok {
 			if b, ok := s.Elem().Underlying().(*types.Basic); ok && b.Kind() == types.Byte {
+				// an unexported helper's parameter is what its library callers pass; an exported
+				// function's data parameter is (possibly) message data
+				if args, known := callerArgsOf(x); known {
+					for _, a := range args {
+						if messageDerived(a, depth+1) {
+							return true
+						}
+					}
+					return false
+				}
 				return true
 			}
 		}
@@ -251,4 +261,39 @@ func messageDerived(v ssa.Value, depth int) bool {
 		}
 	}
 	return false
+}
+
+// callerArgsOf: for a parameter of an unexported, non-method-value library function, the arguments
+// passed at all its static call sites in the module; known=false when the function is exported, is
+// never called statically, or its address is taken.
+var callerProg *Prog
+
+func callerArgsOf(pa *ssa.Parameter) ([]ssa.Value, bool) {
+	fn := pa.Parent()
+	if fn == nil || callerProg == nil || fn.Object() == nil || fn.Object().Exported() {
+		return nil, false
+	}
+	idx := -1
+	for i, q := range fn.Params {
+		if q == pa {
+			idx = i
+		}
+	}
+	if idx < 0 {
+		return nil, false
+	}
+	var out []ssa.Value
+	for _, caller := range callerProg.Funcs() {
+		for _, r := range callerProg.CG().Refs[caller] {
+			if r == fn {
+				return nil, false
+			}
+		}
+		eachInstr(caller, func(b *ssa.BasicBlock, i int, in ssa.Instruction) {
+			if c, ok := in.(ssa.CallInstruction); ok && c.Common().StaticCallee() == fn && idx < len(c.Common().Args) {
+				out = append(out, c.Common().Args[idx])
+			}
+		})
+	}
+	return out, len(out) > 0
 }
